@@ -32,6 +32,7 @@ def evJ : Ev → Json
   | .setEnc e ok => Json.mkObj [("e", "setenc"), ("v", strJ e), ("ok", .bool ok)]
   | .setComp c ok => Json.mkObj [("e", "setcomp"), ("v", strJ c), ("ok", .bool ok)]
   | .close => Json.mkObj [("e", "close")]
+  | .confirmed a b => Json.mkObj [("e", "confirmed"), ("comp", strJ a), ("enc", strJ b)]
 
 def resJ : Res → Json
   | .ok s => Json.mkObj [("r", "ok"), ("ses", sesJ s)]
@@ -67,6 +68,7 @@ def evOf (j : Json) : R Ev := do
   | "emit" => pure (.emit (← sesOf (field j "ses")) (S (getStrD j "enc")))
   | "sel" => pure (.selCall (← strs (field j "compOpts")) (← strs (field j "encOpts")))
   | "authenticator" => pure (.authCall (← strs (field j "schemes")) (← authOf (field j "rt")))
+  | "confirmed" => pure (.confirmed (S (getStrD j "comp")) (S (getStrD j "enc")))
   | x => throw s!"bad client event {x}"
 
 /-- judge an observed client trace (oldest first) and outcome with the property checkers -/
@@ -83,6 +85,7 @@ def handleJudge (j : Json) : R Json := do
   pure <| Json.mkObj [
     ("sends", .bool (LimeModel.ClientSpec.cliRev rev)),
     ("truthful", .bool (LimeModel.ClientSpec.truthful res fin rev)),
+    ("applied", .bool (LimeModel.ClientSpec.cliAppliedRev rev)),
     ("nopanic", .bool (res != .panic))]
 
 def handleCli (j : Json) : R Json := do
